@@ -110,9 +110,6 @@ PROPS["C10"] = {
         {"pkg": "consensus", "harness": C10_VH, "run": "^VH_C10_ValidateV1$", "params": {"quick": {"mask": 608, "weight_uf": 1, "v1cur_fixed": 1, "tax_uf": 1, "spidx_uf": 1, "cflen": 1, "int_mode": 1, "cur_lift": 1}, "thorough": {"mask": 608, "weight_uf": 1, "v1cur_fixed": 1, "tax_uf": 1, "spidx_uf": 1, "cflen": 1, "int_mode": 1, "cur_lift": 1}},
          "flags": {"quick": ["-timeout", "1000", "-maxpaths", "100000"], "thorough": ["-timeout", "1000", "-maxpaths", "400000"]},
          "must_reach": {"VH_C10_ValidateV1": ["rejected"]}, "thorough_only": True},
-        {"pkg": "consensus", "harness": C10_VH, "run": "^VH_C10_ValidateV1$", "params": {"quick": {"mask": 611, "weight_uf": 1, "v1cur_fixed": 1, "tax_uf": 1, "spidx_uf": 1, "cflen": 1, "int_mode": 1, "cur_lift": 1}, "thorough": {"mask": 611, "weight_uf": 1, "v1cur_fixed": 1, "tax_uf": 1, "spidx_uf": 1, "cflen": 1, "int_mode": 1, "cur_lift": 1}},
-         "flags": {"quick": ["-timeout", "1000", "-maxpaths", "100000"], "thorough": ["-timeout", "1000", "-maxpaths", "400000"]},
-         "must_reach": {"VH_C10_ValidateV1": ["rejected"]}, "thorough_only": True},
         {"pkg": "consensus", "harness": C10_VH, "run": "^VH_C10_ValidateV2$", "params": {"quick": {"mask": 3, "weight_uf": 1, "v1cur_fixed": 1, "tax_uf": 1, "spidx_uf": 1, "cflen": 1, "int_mode": 1, "cur_lift": 1}, "thorough": {"mask": 3, "weight_uf": 1, "v1cur_fixed": 1, "tax_uf": 1, "spidx_uf": 1, "cflen": 1, "int_mode": 1, "cur_lift": 1}},
          "flags": {"quick": ["-timeout", "1000", "-maxpaths", "100000"], "thorough": ["-timeout", "1000", "-maxpaths", "400000"]},
          "must_reach": {"VH_C10_ValidateV2": ["rejected", "accepted", "applied"]}},
@@ -131,16 +128,10 @@ PROPS["C10"] = {
         {"pkg": "consensus", "harness": C10_VH, "run": "^VH_C10_ValidateV2$", "params": {"quick": {"mask": 769, "weight_uf": 1, "v1cur_fixed": 1, "tax_uf": 1, "spidx_uf": 1, "cflen": 1, "int_mode": 1, "cur_lift": 1}, "thorough": {"mask": 769, "weight_uf": 1, "v1cur_fixed": 1, "tax_uf": 1, "spidx_uf": 1, "cflen": 1, "int_mode": 1, "cur_lift": 1}},
          "flags": {"quick": ["-timeout", "1000", "-maxpaths", "100000"], "thorough": ["-timeout", "1000", "-maxpaths", "400000"]},
          "must_reach": {"VH_C10_ValidateV2": ["rejected"]}},
-        {"pkg": "consensus", "harness": C10_VH, "run": "^VH_C10_ValidateV2$", "params": {"quick": {"mask": 65, "weight_uf": 1, "v1cur_fixed": 1, "tax_uf": 1, "spidx_uf": 1, "cflen": 1, "int_mode": 1, "cur_lift": 1}, "thorough": {"mask": 65, "weight_uf": 1, "v1cur_fixed": 1, "tax_uf": 1, "spidx_uf": 1, "cflen": 1, "int_mode": 1, "cur_lift": 1}},
-         "flags": {"quick": ["-timeout", "1000", "-maxpaths", "100000"], "thorough": ["-timeout", "1000", "-maxpaths", "400000"]},
-         "must_reach": {"VH_C10_ValidateV2": ["rejected"]}, "thorough_only": True},
-        {"pkg": "consensus", "harness": C10_VH, "run": "^VH_C10_ValidateV2$", "params": {"quick": {"mask": 67, "weight_uf": 1, "v1cur_fixed": 1, "tax_uf": 1, "spidx_uf": 1, "cflen": 1, "int_mode": 1, "cur_lift": 1}, "thorough": {"mask": 67, "weight_uf": 1, "v1cur_fixed": 1, "tax_uf": 1, "spidx_uf": 1, "cflen": 1, "int_mode": 1, "cur_lift": 1}},
-         "flags": {"quick": ["-timeout", "1000", "-maxpaths", "100000"], "thorough": ["-timeout", "1000", "-maxpaths", "400000"]},
-         "must_reach": {"VH_C10_ValidateV2": ["rejected"]}, "thorough_only": True},
     ],
     "tv_runs": {"quick": 0, "thorough": 0},
     "bounds": {"quick": "validators: transaction shapes with the component groups listed in evidence.coverage.runs (1 element per populated component; v1 masks 643/519/769/16, v2 masks 3/12/16/32/128/769), fully symbolic contents, state, network parameters and supplement; decoders: arbitrary input of N bytes, N=40 (policy-bearing objects 20, v1 Transaction/V1Block 100, V2Transaction 24); every loop unwound to completion (path/loop budgets are unwinding assertions); allocation per site <= max(N,255) elements; multiproof block body: the real wire form of 1 v2 transaction (1 siacoin input, optional contract revision, arbitrary 64-bit leaf indices) + arbitrary leaf count < 8 + 0..3 arbitrary proof hashes decodes without panic; two v2 transactions of one block where the second spends an ephemeral siacoin parent with an arbitrary ID (incl. the ID of an attestation or output created by the first), both eras of the ephemeral-output fork: no panic in validation or application; coveredFieldsInRange <=> every index list is below the length of its own field (10 fields of pairwise different lengths)",
-               "thorough": "N=64 / 26 / 110 / 40 (v1 Transaction at N=120 did not finish in 200 s, at N=140 not in 35 minutes); ephemeral siafund parents and contract-creating first transactions; three more v1 and two more v2 component masks"},
+               "thorough": "N=64 / 26 / 110 / 40 (v1 Transaction at N=120 did not finish in 200 s, at N=140 not in 35 minutes); ephemeral siafund parents and contract-creating first transactions; two more v1 component masks (521, 608); masks 611, 65 and 67 were tried and did not finish within minutes"},
     "outside": ["inputs longer than N", "JSON/text Unmarshal entry points (hex text forms: see C20)", "multiproofs with more than 1 transaction or leaf counts >= 8, arbitrary bytes fed to the V2Block/multiproof decoders (the transaction part is a real encoding with symbolic field values)"],
     "stubs": ["fmt.Errorf/Sprintf: opaque values (formatting code not executed)"],
     "assumptions": COMMON_ASSUME,
